@@ -726,6 +726,12 @@ func opSet(r *Run, o *simObj, what string) {
 		var v float64
 		if c.Intn("setnonfinite", 12) == 11 {
 			v = []float64{math.NaN(), math.Inf(1), math.Inf(-1)}[c.Intn("nf", 3)]
+		} else if c.Intn("setbigfloat", 4) == 0 {
+			// integer-valued floats between 2^53 and 1e21 with drawn mantissas (shortest-digit printing is delicate there)
+			v = math.Float64frombits(uint64(0x433+c.Intn("bfexp", 17))<<52 | c.U64("bfmant")&(1<<52-1))
+			if c.Intn("bfneg", 2) == 1 {
+				v = -v
+			}
 		} else {
 			v = setValsFloat[c.Intn("setfloat", len(setValsFloat))]
 		}
@@ -1044,6 +1050,17 @@ func RunHistEdit(r *Run, profile string) {
 	c := r.C
 	cfg := drawCfg(c, true)
 	doc := genHistDoc(r, cfg.ND, c.Intn("bigdoc", 12) == 11)
+	hugeOdds := 150
+	if r.thorough() {
+		hugeOdds = 25
+	}
+	huge := profile == "delete" && c.Intn("hugedoc", hugeOdds) == 0
+	if huge {
+		// tapes beyond the serializer's 64 KiB tag/value blocks: gaps may straddle a flush boundary
+		cfg.ND = false
+		doc = GenBulkDoc(c, 150000+c.Intn("hugesz", 250000), []int{FamDenseArrays, FamZeros, FamNumbers, FamStrings, FamWide}).B
+		r.stat("huge_tapes", 1)
+	}
 	r.Res.Inputs["doc"] = b64(doc)
 	r.Res.Sample["cfg"] = cfg.String()
 	r.Res.Sample["doc"] = string(shortBytes(doc))
@@ -1053,6 +1070,17 @@ func RunHistEdit(r *Run, profile string) {
 		return
 	}
 	sers := newSerializers(c, 1)
+	if c.Intn("deserializedsubject", 5) == 0 {
+		// the tape being edited came out of Deserialize (equal strings share storage there)
+		out, _, err := RoundTrip(sers[0], sers[0], o.pj, nil)
+		if err != nil {
+			walkerFail(r, "W-ser", "preparing a deserialized subject", err)
+			return
+		}
+		o = &simObj{pj: out, model: o.model, nd: o.nd, copy: true, origin: "deserialized " + o.origin}
+		r.Res.Sample["subject"] = "deserialized"
+		r.stat("deserialized_subjects", 1)
+	}
 	if profile == "delete" && c.Intn("allsubsets", 6) == 0 {
 		// every subset of the members of one small container, each on a fresh parse of the same document
 		var small []Pos
@@ -1098,6 +1126,9 @@ func RunHistEdit(r *Run, profile string) {
 	case "delete":
 		battery = bAll
 	}
+	if huge {
+		battery = bInto | bAdv | bSerial
+	}
 	nops := 1 + c.Intn("nops", 12)
 	var ops []string
 	for k := 0; k < nops && !r.failed(); k++ {
@@ -1122,7 +1153,7 @@ func RunHistEdit(r *Run, profile string) {
 			break
 		}
 		readBack(r, o, battery, fmt.Sprintf("after %s (%s)", what, ops[len(ops)-1]), sers)
-		if (profile == "marshal" || profile == "delete") && !r.failed() {
+		if (profile == "marshal" || profile == "delete") && !r.failed() && !huge {
 			// C14 lists MarshalJSON of Iter, Array and Elements among the APIs that must agree after deletions
 			checkMarshalInner(r, o, fmt.Sprintf("after %s", what))
 		}
